@@ -65,9 +65,10 @@ def model_check(res, tier):
 def generate(tier, rng):
     scen = []
     num = 300 if tier == "quick" else 8000
-    for fam in ("QuickScenes", "ThoroughScenes"):
+    for fam in ("QuickScenes", "ThoroughScenes", "PersistScenes"):
         base = cfg(fam, [1, 2, 3, 4], [1, 2, 3, 5, 8], 5, 8, "  D = 10\nCONSTRAINT Bound\nINVARIANT Dump\n", spec="GSpec")
-        bs = tlc_generate("Gen_Mixer.tla", write_cfg("Gen_Mixer_%s.cfg" % fam, base), "sim", num=num, depth=11, timeout=2400, tag="c02g")[:num * 2]
+        k = num // 2 if fam == "PersistScenes" else num
+        bs = tlc_generate("Gen_Mixer.tla", write_cfg("Gen_Mixer_%s.cfg" % fam, base), "sim", num=k, depth=11, timeout=2400, tag="c02g")[:k * 2]
         for x in bs:
             scen.append({"sc": x[0]["sc"], "b": x[0]["b"], "src": "tlc-sim-" + fam, "steps": x[1:]})
     return scen
